@@ -4,6 +4,7 @@ import copy, json, random
 from ..common import Result, Violation, run_driver, canon_hash
 from ..langgen import LangGen, chain_language, gen_model, lang_payload, inst_payload, build_lang, build_model, jtxt
 from ..genrun import Ref
+from .. import genexec
 
 ASSUMPTIONS = ['languages well-formed (acyclic single inheritance; a redefinition keeps the step type)',
                'object identity (aliasing between the answer and the loaded specification) is observed with id() on the real objects; '
@@ -28,7 +29,7 @@ def containers(x, acc):
         for v in (x.values() if isinstance(x, dict) else x): containers(v, acc)
     return acc
 
-def check_case(spec, inst, mo, rnd, res=None, broken_first='draw'):
+def check_case(spec, inst, mo, rnd, res=None, broken_first='draw', gen=None):
     from maltoolbox.language import LanguageGraph, LanguageClassesFactory
     from maltoolbox.attackgraph import AttackGraph
     if broken_first == 'draw':
@@ -106,6 +107,36 @@ def check_case(spec, inst, mo, rnd, res=None, broken_first='draw'):
             if [[k, d] for k, d in got[t]] != want[t]:
                 return Violation(what=f'Lean model and implementation disagree on the steps of {t}', fingerprint='C03:model-divergence',
                                  replay={'spec': spec, 'type': t, 'model': got[t], 'impl': want[t]}, no_failing_input=True)
+    if gen is not None:
+        return gen_check(spec, lg, gen[0], gen[1], res)
+    return None
+
+def gen_queries(spec, k):
+    """the lookups asked of the generated code: every type twice, in an order drawn from the case number"""
+    q = [a['name'] for a in spec['assets']] * 2
+    random.Random(k).shuffle(q)
+    return q
+
+def gen_check(spec, lg, queries, go, res=None):
+    """third column: the translated `_get_attacks_for_asset_type` (Py/GenLang/Attacks.lean) was run by the driver on ONE heap
+    holding the specification, query after query; the real resolver is asked the same queries of a fresh copy of the
+    specification.  Compared: every answer (order included), and whether the specification is unchanged afterwards."""
+    if not go.get('loadedIsInput'):
+        return genexec.divergence('C03', 'load', 'on the specification read back from the freshly loaded heap', {'spec': spec})
+    lg._lang_spec = copy.deepcopy(spec)
+    snapshot = copy.deepcopy(lg._lang_spec)
+    for k, (t, ga) in enumerate(zip(queries, go['answers'])):
+        try: ia = canon_steps(lg._get_attacks_for_asset_type(t))
+        except Exception as e: ia = {'error': type(e).__name__}
+        if res is not None: res.bump('generated_code_lookups_compared')
+        same = (isinstance(ia, dict) and isinstance(ga, dict)) or (isinstance(ga, list) and [[n, d] for n, d in ga] == ia)
+        if not same:
+            return genexec.divergence('C03', '_get_attacks_for_asset_type', f'on the steps of {t} (query {k} of {queries})',
+                                      {'spec': spec, 'queries': queries[:k + 1], 'impl': ia, 'generated': ga})
+    if (lg._lang_spec == snapshot) != bool(go.get('specUnchanged')):
+        return genexec.divergence('C03', 'spec-unchanged', 'on whether the lookups left the specification unchanged',
+                                  {'spec': spec, 'queries': queries, 'impl_unchanged': lg._lang_spec == snapshot,
+                                   'generated_unchanged': go.get('specUnchanged')})
     return None
 
 def depth_and_redefs(spec):
@@ -133,15 +164,22 @@ def run(seed, tier, lean) -> Result:
         r = random.Random(rnd.getrandbits(48))
         spec = chain_language(r) if i % 2 else LangGen(r, n_assets=r.randint(3, 7), knobs={'redefine': 0.8}).gen()
         cases.append((spec, gen_model(r, spec), r))
-    model = None
+    model = gen = None
     if lean['build_ok']:
-        model = run_driver([{'op': 'resolve', 'case': i, 'lang': lang_payload(s), 'types': [a['name'] for a in s['assets']]}
-                            for i, (s, m, r) in enumerate(cases)])
+        model, gen = genexec.run_both([{'op': 'resolve', 'case': i, 'lang': lang_payload(s), 'types': [a['name'] for a in s['assets']]}
+                                       for i, (s, m, r) in enumerate(cases)], 'gen_resolve',
+                                      rewrite=lambda q: dict(q, types=gen_queries(cases[q['case']][0], q['case'])))
     for i, (spec, inst, r) in enumerate(cases):
         res.evaluations += 1
         mo = model[i].get('model') if model is not None else None
+        go = None
+        if gen is not None and mo is not None:
+            if 'error' in gen[i]:
+                res.violations.append(genexec.driver_error('C03', gen[i]['error'], {'spec': spec}))
+            else:
+                go = (gen_queries(spec, i), gen[i]['model'])
         from ..common import guarded
-        done, v = guarded(res, check_case, spec, inst, mo, r, res)
+        done, v = guarded(res, check_case, spec, inst, mo, r, res, gen=go)
         if not done: continue
         if depth_and_redefs(spec): res.nontrivial.add(canon_hash(spec)); res.bump('depth>=3 with redefinition')
         for a in spec['assets']:
